@@ -47,6 +47,7 @@ import (
 	"go/format"
 	"go/token"
 	"go/types"
+	"golang.org/x/tools/go/ast/astutil"
 	"os"
 	"reflect"
 	"sort"
@@ -76,6 +77,8 @@ type Result struct {
 	Declined []string // "callee at caller: reason"
 	Removed  []string // helper declarations dropped because every use was inlined
 	Fallback []string // packages analysed as written because the transformed tree did not type-check
+	// Scalarised: functions in which local struct variables were replaced by one variable per field (sroa.go)
+	Scalarised []string
 	// CallSites: position of the '(' of every call that was replaced by its callee's body
 	CallSites map[token.Pos]string
 	// DeferSites: position of calls that stand for a deferred call of an expanded helper
@@ -190,6 +193,40 @@ func Apply(pkgs []*packages.Package, modPath string, baseline map[string]bool) (
 		}
 		if err != nil {
 			return res, fmt.Errorf("re-checking %s: %v", p.PkgPath, err)
+		}
+		// scalar replacement of local struct variables (sroa.go), on a private copy
+		if os.Getenv("GFS3_NO_SROA") == "" {
+			cs := &pkgState{orig: map[ast.Node]ast.Node{}}
+			var cfiles []*ast.File
+			for _, f := range files {
+				cf := cs.clone(f).(*ast.File)
+				cf.Imports = nil
+				for _, d := range cf.Decls {
+					if gd, ok := d.(*ast.GenDecl); ok && gd.Tok == token.IMPORT {
+						for _, sp := range gd.Specs {
+							cf.Imports = append(cf.Imports, sp.(*ast.ImportSpec))
+						}
+					}
+				}
+				cfiles = append(cfiles, cf)
+			}
+			before := len(res.Scalarised)
+			if n := sroaFiles(cfiles, info, cs.orig, tp, res); n > 0 {
+				if os.Getenv("GFS3_DEBUG_SROA") != "" {
+					for _, f := range cfiles {
+						if strings.Contains(p.Fset.Position(f.Pos()).Filename, os.Getenv("GFS3_DEBUG_SROA")) {
+							format.Node(os.Stderr, token.NewFileSet(), f)
+						}
+					}
+				}
+				tp2, info2, err2 := recheck(p, cfiles, rechecked)
+				if err2 != nil {
+					res.Scalarised = res.Scalarised[:before]
+					res.Fallback = append(res.Fallback, p.PkgPath+" (scalar replacement): "+err2.Error())
+				} else {
+					files, tp, info = cfiles, tp2, info2
+				}
+			}
 		}
 		p.Syntax = files
 		p.Types = tp
@@ -387,6 +424,7 @@ func (st *pkgState) run(baseline map[string]bool) {
 			st.cand[obj] = fi
 		}
 	}
+	st.etaExpandMethodValues(all)
 	// static calls among candidates (for bottom-up order and recursion)
 	for _, fi := range st.cand {
 		ast.Inspect(fi.decl.Body, func(n ast.Node) bool {
@@ -890,4 +928,150 @@ func topLevelDefers(fd *ast.FuncDecl) map[*ast.DeferStmt]bool {
 		})
 	}
 	return out
+}
+
+// etaExpandMethodValues rewrites a method value `x.m` of a helper method (not
+// in the baseline inventory) with a pointer receiver, where x is a local
+// variable or parameter, into `func(p...) R { return x.m(p...) }`. With a
+// pointer receiver and a variable operand the two are the same function: the
+// method value binds &x (or the pointer x), the literal reads the same variable
+// when called. The call inside the literal is then an ordinary helper call and
+// is expanded like any other — `db.bolt.View(op.load)` becomes a transaction
+// closure again.
+func (st *pkgState) etaExpandMethodValues(all []*funcInfo) {
+	k := 0
+	for _, fi := range all {
+		callFun := map[ast.Expr]bool{}
+		ast.Inspect(fi.decl.Body, func(n ast.Node) bool {
+			if c, ok := n.(*ast.CallExpr); ok {
+				callFun[c.Fun] = true
+			}
+			return true
+		})
+		astutil.Apply(fi.decl.Body, func(c *astutil.Cursor) bool {
+			se, ok := c.Node().(*ast.SelectorExpr)
+			if !ok || callFun[se] {
+				return true
+			}
+			osel, ok := st.o(se).(*ast.SelectorExpr)
+			if !ok {
+				return true
+			}
+			sel := st.info.Selections[osel]
+			if sel == nil || sel.Kind() != types.MethodVal || len(sel.Index()) != 1 || types.IsInterface(sel.Recv()) {
+				return true
+			}
+			fn, _ := sel.Obj().(*types.Func)
+			ci := st.cand[fn]
+			if fn == nil || ci == nil {
+				return true
+			}
+			sig := fn.Type().(*types.Signature)
+			if _, ptr := sig.Recv().Type().(*types.Pointer); !ptr {
+				return true
+			}
+			x, ok := se.X.(*ast.Ident)
+			if !ok {
+				return true
+			}
+			if v, ok := st.useOf(x).(*types.Var); !ok || v.IsField() || v.Parent() == st.pkg.Types.Scope() {
+				return true
+			}
+			// the signature is spelled with the method declaration's own type expressions: they must mean
+			// the same in this file
+			okTypes := true
+			ast.Inspect(ci.decl.Type, func(n ast.Node) bool {
+				if q, ok := n.(*ast.SelectorExpr); ok {
+					if qx, ok := q.X.(*ast.Ident); ok {
+						if pn, ok := st.useOf(qx).(*types.PkgName); ok {
+							if !fileImports(fi.file, qx.Name, pn.Imported().Path()) {
+								okTypes = false
+							}
+							if sc := st.pkg.Types.Scope().Innermost(osel.Pos()); sc != nil {
+								if _, found := sc.LookupParent(qx.Name, osel.Pos()); found != types.Object(pn) {
+									if fpn, ok := found.(*types.PkgName); !ok || fpn.Imported().Path() != pn.Imported().Path() {
+										okTypes = false
+									}
+								}
+							}
+							return false
+						}
+					}
+				}
+				id, ok := n.(*ast.Ident)
+				if !ok {
+					return true
+				}
+				switch ob := st.useOf(id).(type) {
+				case *types.PkgName:
+					if !fileImports(fi.file, id.Name, ob.Imported().Path()) {
+						okTypes = false
+					}
+				case *types.TypeName:
+					if ob.Parent() != st.pkg.Types.Scope() && ob.Parent() != types.Universe {
+						okTypes = false
+					}
+					// shadowed at the use site?
+					if sc := st.pkg.Types.Scope().Innermost(osel.Pos()); sc != nil {
+						if _, found := sc.LookupParent(id.Name, osel.Pos()); found != types.Object(ob) {
+							okTypes = false
+						}
+					}
+				}
+				return true
+			})
+			if !okTypes {
+				return true
+			}
+			k++
+			pos := se.Pos()
+			ft := &ast.FuncType{Func: pos, Params: &ast.FieldList{Opening: pos, Closing: pos}}
+			var args []ast.Expr
+			i := 0
+			variadic := false
+			if ci.decl.Type.Params != nil {
+				for _, f := range ci.decl.Type.Params.List {
+					n := len(f.Names)
+					if n == 0 {
+						n = 1
+					}
+					for j := 0; j < n; j++ {
+						nm := fmt.Sprintf("_mv%d_%d", k, i)
+						i++
+						ft.Params.List = append(ft.Params.List, &ast.Field{Names: []*ast.Ident{{NamePos: pos, Name: nm}}, Type: st.clone(f.Type).(ast.Expr)})
+						args = append(args, &ast.Ident{NamePos: pos, Name: nm})
+						if _, isEll := f.Type.(*ast.Ellipsis); isEll {
+							variadic = true
+						}
+					}
+				}
+			}
+			if ci.decl.Type.Results != nil {
+				ft.Results = &ast.FieldList{Opening: pos, Closing: pos}
+				for _, f := range ci.decl.Type.Results.List {
+					n := len(f.Names)
+					if n == 0 {
+						n = 1
+					}
+					for j := 0; j < n; j++ {
+						ft.Results.List = append(ft.Results.List, &ast.Field{Type: st.clone(f.Type).(ast.Expr)})
+					}
+				}
+			}
+			call := &ast.CallExpr{Fun: se, Lparen: pos, Args: args, Rparen: pos}
+			if variadic {
+				call.Ellipsis = pos
+			}
+			var body ast.Stmt
+			if ft.Results != nil {
+				body = &ast.ReturnStmt{Return: pos, Results: []ast.Expr{call}}
+			} else {
+				body = &ast.ExprStmt{X: call}
+			}
+			c.Replace(&ast.FuncLit{Type: ft, Body: &ast.BlockStmt{Lbrace: pos, List: []ast.Stmt{body}, Rbrace: pos}})
+			st.changed = true
+			st.res.Inlined = append(st.res.Inlined, fmt.Sprintf("method value %s wrapped in a function literal in %s", fn.FullName(), fi.obj.FullName()))
+			return false
+		}, nil)
+	}
 }
